@@ -145,3 +145,30 @@ void harness_sign_recoverable(void) {
         __CPROVER_assert(recid < 2, "witness: recid with overflow bit"); __CPROVER_assert(!((bvw)s0 > HALF_N()), "witness: negated s");
     }
 }
+
+/* ---- public-key recovery: x reconstruction (r or r + n, only when r < p - n), parity, Q = r^-1 (s R - m G), failure set ---- */
+#ifdef RECOVER
+static secp256k1_fe lift_x; static int lift_odd, lift_calls, lift_ret; static secp256k1_fe lift_y;
+int STUB_secp256k1_ge_set_xo_var(secp256k1_ge *r, const secp256k1_fe *x, int odd) {
+    lift_calls++; lift_x = *x; lift_odd = odd; lift_y = verif_fe_m1(); __CPROVER_assume(fe_val(&lift_y) < verif_P());
+    r->x = *x; r->y = lift_y; r->infinity = 0; lift_ret = nondet_int() & 1; return lift_ret;
+}
+typedef struct { secp256k1_scalar r, s, m; int recid; } rec_in_t; rec_in_t nondet_rec_in(void);
+void harness_recover(void) {
+    rec_in_t in = nondet_rec_in(); secp256k1_ge pk; int ret; bvw r, s, m, N = verif_N(), P = verif_P(), x, rinv;
+    __CPROVER_assume(!secp256k1_scalar_check_overflow(&in.r) && !secp256k1_scalar_check_overflow(&in.s) && !secp256k1_scalar_check_overflow(&in.m) && in.recid >= 0 && in.recid <= 3);
+    r = sc_val(&in.r); s = sc_val(&in.s); m = sc_val(&in.m); the_R = free_point();
+    ret = secp256k1_ecdsa_sig_recover(&in.r, &in.s, &pk, &in.m, in.recid);
+    if (r == 0 || s == 0) { __CPROVER_assert(ret == 0 && lift_calls == 0 && ecmult_calls == 0, "zero r or s: no key recovered"); return; }
+    if ((in.recid & 2) && r >= P - N) { __CPROVER_assert(ret == 0 && lift_calls == 0, "recid bit 1 with r >= p - n (r + n would not be a field element): rejected"); return; }
+    x = (in.recid & 2) ? r + N : r;
+    __CPROVER_assert(lift_calls == 1 && fe_cval(&lift_x) == x && lift_odd == (in.recid & 1), "R is lifted from x = r (+ n iff recid bit 1) with the parity given by recid bit 0");
+    if (!lift_ret) { __CPROVER_assert(ret == 0 && ecmult_calls == 0, "x not on the curve: rejected"); return; }
+    rinv = (bvw)uf_scinv((sbv)r);
+    __CPROVER_assert(ecmult_calls == 1 && !rec_a.infinity && fe_cval(&rec_a.x) == x && fe_val(&rec_a.y) == fe_val(&lift_y) && fe_val(&rec_a.z) == 1, "the multiplication is on the lifted point R");
+    __CPROVER_assert((bvw)sc_bv(&rec_na) == (bvw)uf_scmul((sbv)rinv, (sbv)s) && (bvw)sc_bv(&rec_ng) == negN((bvw)uf_scmul((sbv)rinv, (sbv)m)), "Q = (r^-1 s) R + (-(r^-1 m)) G");
+    __CPROVER_assert(ret == !the_R.infinity, "recovery succeeds exactly when Q is finite");
+    if (ret) __CPROVER_assert(fe_val(&pk.x) == fe_val(&the_R.x) && fe_val(&pk.y) == fe_val(&the_R.y) && !pk.infinity, "recovered key is Q");
+    __CPROVER_assert(!(ret && (in.recid & 2)), "witness: recovery with r + n"); __CPROVER_assert(!ret, "witness: recovery succeeds");
+}
+#endif
